@@ -67,7 +67,7 @@ def extract(tr, n=1):
                 else:
                     last_err = o[4]
                     final = 'failed ' + f'{o[4][0]}@{o[4][1]}.{o[4][2]}.{o[4][3]}'
-        for idx, st in e.get('done', []):
+        for idx, st, *_ in e.get('done', []):
             # a BaseException outside Exception ends the node's task without on_node_complete
             if st[0] == 'exc' and st[1][0] == 'B0' and st[1][1] == n and final is None:
                 final = 'failed ' + f'{st[1][0]}@{st[1][1]}.{st[1][2]}.{st[1][3]}'
@@ -142,6 +142,7 @@ def main(tier_):
     for it in gen:
         it['retry_p'] = 0.9
         it['fail_p'] = 0.45
+    gen = sched.corpus_items(['C12']) + gen
     grecs = [r for r in sched.run_items(gen) if 'harness_error' not in r]
     bad = [r for r in recs if r['div'] or r['viol']] + [r for r in grecs if r['div'] or r['viol']]
     finals, ncalls = {}, {}
